@@ -185,7 +185,9 @@ fn set_shapes() -> Vec<Vec<Re>> {
         // a join state flagged for backtracking that is also reachable with nothing recorded
         // ("bc…": fails through `backtrack()` with no saved match)
         vec![ch('a'), cat(cat(alt(ch('a'), ch('b')), star(ch('c'))), ch('b'))],
-        vec![plus(ch('a')), ch('b')],
+        // range, `_`, `$` and character transitions in one rule set (every kind of transition is
+        // renumbered separately when rule sets are concatenated)
+        vec![cat(set(&[('a', 'b')]), ch('c')), cat(Re::Any, ch('b')), cat(ch('c'), Re::Eoi), plus(ch('a'))],
         // accepting only under a right context, with outgoing transitions
         vec![Re::Any, ch('c')],
         vec![cat(plus(ch('a')), ch('b')), ch('a'), ch('c')],
